@@ -20,12 +20,12 @@ fn space_for(tier: Tier) -> (Space, usize) {
     let mut s = Space::new();
     match tier {
         Tier::Quick => {
-            s.ast("CI", 3, 32);
+            s.ast("CI", 4, 32);
             s.list("letters", LETTERS.len() as u64, 4);
             (s, 2)
         }
         Tier::Thorough => {
-            s.ast("CI", 4, 32);
+            s.ast("CI", 5, 32);
             s.list("letters", LETTERS.len() as u64, 4);
             (s, 3)
         }
